@@ -161,10 +161,7 @@ theorem inv_run : ∀ (ops : List Op) (st : State), Inv st → Inv (run ops st)
 /-! ### write -/
 
 theorem writeElems_ok : ∀ {elems : List Elem} {bs : List OutBuild}, writeElems elems = .ok bs →
-    (∀ e ∈ elems, e.outputErrors = false) ∧ bs = elems.map (fun e =>
-      ({ outs := e.outs.map slash, implOuts := e.implOuts.map slash, rule := slash (lineRule e),
-         ins := e.ins.map slash, deps := (sortedSet e.deps).map slash,
-         orderdeps := (sortedSet e.orderdeps).map slash } : OutBuild))
+    (∀ e ∈ elems, e.outputErrors = false) ∧ bs = elems.map lineOf
   | [], bs, h => by
     simp [writeElems] at h
     cases h
@@ -298,7 +295,7 @@ theorem write_ok_builds {ops : List Op} {out : Out} (h : emit ops = .ok out) :
       have := run_elems_outs ops {}
       simp only [List.flatMap_nil, List.nil_append] at this
       rw [← this]
-      simp [List.map_flatMap]
+      simp [List.map_flatMap, lineOf]
 
 theorem slash_phony : slash phony = phony := by decide
 
@@ -330,7 +327,7 @@ theorem write_ok_rules {ops : List Op} {out : Out} (h : emit ops = .ok out) :
       have hsome : usesRsp e ≠ none := countRefs_none hnone e he
       by_cases hph : e.rulename = phony
       · left
-        simp [lineRule, usesRsp, hph, slash_phony]
+        simp [lineOf, lineRule, usesRsp, hph, slash_phony]
       · right
         cases hatt : e.attached with
         | none => simp [usesRsp, hph, hatt] at hsome
@@ -340,7 +337,7 @@ theorem write_ok_rules {ops : List Op} {out : Out} (h : emit ops = .ok out) :
           cases hb' : (r.rspable && e.long) with
           | false =>
             left
-            refine ⟨by simp [lineRule, hu, hb'], ?_⟩
+            refine ⟨by simp [lineOf, lineRule, hu, hb'], ?_⟩
             simp only [List.mem_flatMap]
             refine ⟨r, hr, ?_⟩
             have : refd (run ops {}).elems r = true := by
@@ -349,7 +346,7 @@ theorem write_ok_rules {ops : List Op} {out : Out} (h : emit ops = .ok out) :
             simp [ruleBlocks, this, hname]
           | true =>
             right
-            refine ⟨by simp [lineRule, hu, hb'], ?_⟩
+            refine ⟨by simp [lineOf, lineRule, hu, hb'], ?_⟩
             simp only [List.mem_flatMap]
             refine ⟨r, hr, ?_⟩
             have : rspRefd (run ops {}).elems r = true := by
